@@ -6,7 +6,7 @@
 #  3. the given pytest paths (default: whole suite, -n 10) pass with the patch applied
 # The scratch worktree lives under /tmp/vs and is removed at the end.  Never touches /repo's working tree.
 P=$1; K=$2; shift 2
-SRC=/tmp/seed_out/$P
+SRC=${SEED_OUT:-/tmp/seed_out}/$P
 WT=/tmp/vs/${P}_${K}_$$
 PY=/venv/bin/python
 [ -f "$SRC/patch$K.diff" ] && [ -f "$SRC/demo$K.py" ] || { echo "missing patch/demo for $P $K"; exit 2; }
